@@ -192,3 +192,43 @@ def decl_si_factor(entries):
         if sc is None: sc = U.scale_of(u)
         f *= (Fraction(10) ** pre * sc) ** p
     return f
+
+# ---------------------------------------------------------------- translator validation for the operator kernels
+def validate_kernels(seed, n=80, ops=('add', 'sub', 'mul', 'div', 'pow'), offsets=False):
+    """seeded random CONCRETE quantities through the MIR interpreter and through the native build (numeric_op hook):
+    outcome, value and unit entries must agree.  Returns the number of agreeing traces; raises on a disagreement."""
+    import random, harness, replay_client, json
+    rnd = random.Random(2000 + seed)
+    I = harness.interp_for('dev')
+    voc = vocabulary(I, offsets=offsets)
+    def quantity():
+        k = rnd.choice([0, 1, 1, 1, 2])
+        us = rnd.sample(voc, k)
+        ents = [(u, rnd.choice([-3, -2, -1, 1, 1, 2, 3]), rnd.choice([0, 0, 0, 3, -3, 6])) for u in us]
+        return Fraction(rnd.randint(-40, 40), rnd.randint(1, 9)), ents
+    cases = []
+    for _ in range(n):
+        op = rnd.choice(ops); a = quantity(); b = quantity() if op != 'pow' else (Fraction(rnd.randint(-3, 3)), [])
+        cases.append((op, a, b))
+    outs = replay_client.run_profile([{'op': 'numeric_op', 'fn': op, 'a': numeric_json(I, a[0], a[1]), 'b': numeric_json(I, b[0], b[1])} for op, a, b in cases], 'dev')
+    okc = 0
+    for (op, a, b), o in zip(cases, outs):
+        FN = rt.find_fn(I, op, contains='eval::', nargs=3)
+        I.reset([])
+        try:
+            r = I.run_body(FN, [rt.span(0, 0), rt.numeric(a[0], rt.compound(I, a[1])), rt.numeric(b[0], rt.compound(I, b[1]))])
+        except PathEnd as e:
+            if e.kind == 'panic' and 'panic' in o: okc += 1; continue
+            if e.kind == 'bound': continue
+            raise RuntimeError(f'translator validation: {op} {a} {b}: interpreter {e.kind} {e.info}, native {str(o)[:200]}')
+        res = (o.get('ok') or [{}])[0]
+        if r.variant == 'Err':
+            if 'err' not in res: raise RuntimeError(f'translator validation: {op} {a} {b}: interpreter Err({r.items[0].items[1].variant}), native {res}')
+            okc += 1; continue
+        if 'ok' not in res: raise RuntimeError(f'translator validation: {op} {a} {b}: interpreter Ok, native {o}')
+        v = mnum.rat_arg(I, r.items[0].items[0]); R = rt.read_compound(I, r.items[0].items[1])
+        key = lambda es: sorted(json.dumps(e, sort_keys=True) for e in es)
+        if Fraction(v) != rt.parse_frac(res['ok']['value']) or key(entries_json(I, R)) != key(res['ok']['unit']):
+            raise RuntimeError(f'translator validation: {op} {a} {b}: interpreter {v} {R}, native {res["ok"]}')
+        okc += 1
+    return okc
